@@ -89,6 +89,63 @@ struct World {
     sk: SecretKey,
     class: u64,
     events: Vec<String>,
+    /// oracle-only section (several slots, concurrency): nothing is written to the compared stream
+    mute: bool,
+}
+
+/// one call into the blockstore of the back-pressure case
+#[derive(Clone)]
+enum FeedOp {
+    Dis(ValidatedShred),
+    Own(SlicePayload, Box<[ValidatedShred; TOTAL_SHREDS]>),
+}
+/// (kind, slot, hash of an announced block)
+type Ev = (&'static str, u64, Option<BlockHash>);
+
+/// Runs `ops` on a fresh blockstore whose channel to the consumer holds `cap` events, concurrently with a consumer
+/// that starts `start_lag` scheduler turns late and pauses `lag` turns after every event (one current-thread
+/// runtime, `join!`, no timers: deterministic).  Returns the events in arrival order and the hashes of the blocks
+/// returned to the caller.
+fn run_with_consumer(rt: &tokio::runtime::Runtime, ops: &[FeedOp], cap: usize, start_lag: usize, lag: usize) -> Result<(Vec<Ev>, Vec<BlockHash>), String> {
+    catch(|| {
+        rt.block_on(async {
+            let (tx, mut rx) = mpsc::channel(cap);
+            let mut store = BlockstoreImpl::new(tx);
+            let feeder = async move {
+                let mut returned = vec![];
+                for op in ops.iter().cloned() {
+                    let r = match op {
+                        FeedOp::Dis(s) => store.add_shred_from_dissemination(s).await.ok().flatten(),
+                        FeedOp::Own(p, a) => store.add_own_slice(p, a).await,
+                    };
+                    if let Some(info) = r {
+                        returned.push(info.verif_hash().clone());
+                    }
+                }
+                drop(store); // closes the channel: the consumer sees the end of the stream
+                returned
+            };
+            let consumer = async {
+                for _ in 0..start_lag {
+                    tokio::task::yield_now().await;
+                }
+                let mut evs: Vec<Ev> = vec![];
+                while let Some(e) = rx.recv().await {
+                    evs.push(match e {
+                        BlockstoreEvent::FirstShred(s) => ("first", s.inner(), None),
+                        BlockstoreEvent::InvalidBlock(s) => ("invalid", s.inner(), None),
+                        BlockstoreEvent::Block { slot, block_info } => ("block", slot.inner(), Some(block_info.verif_hash().clone())),
+                    });
+                    for _ in 0..lag {
+                        tokio::task::yield_now().await;
+                    }
+                }
+                evs
+            };
+            let (returned, evs) = tokio::join!(feeder, consumer);
+            (evs, returned)
+        })
+    })
 }
 
 impl World {
@@ -190,7 +247,9 @@ impl World {
                     Kind::Normal => format!("root {r} ok {} {}", self.parent_str(&spec.parent), Self::txs_str(&spec.txs)),
                     _ => format!("root {r} bad"),
                 };
-                self.rec.step(&op, "ok");
+                if !self.mute {
+                    self.rec.step(&op, "ok");
+                }
                 r
             }
         };
@@ -555,6 +614,7 @@ fn main() {
         sk,
         class: 0,
         events: vec![],
+        mute: false,
     };
     let rounds = if args.thorough { 60 } else { 20 };
     let max_n = if args.thorough { 10 } else { 6 };
@@ -656,6 +716,7 @@ fn main() {
                 w.feed(&built[short].shreds[i], None);
             }
             w.rec.oracle(w.count_ev("block") == 1 && w.count_ev("invalid") == 0 && w.count_ev("first") == 1, "honest-block-once", || format!("events {:?} after completing slice {short}", w.events));
+            w.rec.oracle(w.count_ev("invalid") == 0, "honest-never-invalid", || format!("InvalidBlock for an honest block delivered in two parts: events {:?}; specs {:?}", w.events, specs));
             let fp = final_parent(&specs);
             let txs = all_txs(&specs);
             check_served(&mut w, hid, &h, &built, fp, &txs, &mut rng, false);
@@ -919,6 +980,107 @@ fn main() {
             w.q_root(target.0, &target.1, 0);
             w.q_proof(target.0, &target.1, 0);
             w.q_dh();
+            let c = w.class;
+            w.rec.end_case(c, true);
+        }
+
+        // ---------------- back-pressure: the consumer of the events lags behind a tiny channel ----------------
+        // Several blocks (different slots; honest ones by dissemination or the leader's fast path, one possibly
+        // malformed) are ingested back to back while the event channel holds 1-2 events and the consumer runs
+        // concurrently, late and slowly.  Every FirstShred / Block / InvalidBlock must still arrive exactly once
+        // ("announces the first shred and the block exactly once each", "announces an invalid block once"), in
+        // the order in which an unhindered consumer sees them.  Oracle-only (the model is one slot, no channel).
+        {
+            w.rec.begin_case("backpressure");
+            w.roots.clear();
+            w.hashes.clear();
+            w.mute = true;
+            let nb = rng.range(2, 4) as usize;
+            let base = rng.range(1, 30);
+            let bad = if rng.chance(1, 2) { Some(rng.below(nb as u64) as usize) } else { None };
+            let own = if rng.chance(1, 2) { Some(rng.below(nb as u64) as usize) } else { None };
+            // per block: slot, expected hash (None = malformed), its calls in order
+            let mut blocks: Vec<(u64, Option<BlockHash>, Vec<FeedOp>)> = vec![];
+            for b in 0..nb {
+                let slot = base + b as u64;
+                w.slot = slot;
+                let n = rng.range(1, 3) as usize;
+                let mut specs = honest_specs(&mut rng, n, slot, nparents, false);
+                if bad == Some(b) {
+                    specs[rng.below(n as u64) as usize].kind = Kind::BadPayload;
+                }
+                let built: Vec<Built> = specs.iter().map(|s| w.build(s)).collect();
+                let roots: Vec<SliceRoot> = built.iter().map(|x| x.root.clone()).collect();
+                let h = DoubleMerkleTree::new(roots.iter()).get_root();
+                let ops: Vec<FeedOp> = if own == Some(b) && bad != Some(b) {
+                    built
+                        .iter()
+                        .map(|x| {
+                            let payload = SlicePayload::try_from(w.payload_bytes(&x.spec).as_slice()).expect("payload");
+                            FeedOp::Own(payload, Box::new(x.shreds.clone().try_into().map_err(|_| ()).expect("64")))
+                        })
+                        .collect()
+                } else {
+                    delivery(&mut rng, n, DATA_SHREDS, None).iter().map(|(s, i)| FeedOp::Dis(built[*s].shreds[*i].clone())).collect()
+                };
+                blocks.push((slot, if bad == Some(b) { None } else { Some(h) }, ops));
+            }
+            w.mute = false;
+            // back to back, or merged (each block's calls stay in their order)
+            let mut ops: Vec<FeedOp> = vec![];
+            if rng.chance(1, 2) {
+                for (_, _, o) in &blocks {
+                    ops.extend(o.iter().cloned());
+                }
+            } else {
+                let mut pos = vec![0usize; nb];
+                loop {
+                    let live: Vec<usize> = (0..nb).filter(|b| pos[*b] < blocks[*b].2.len()).collect();
+                    if live.is_empty() {
+                        break;
+                    }
+                    let b = *rng.pick(&live);
+                    let burst = rng.range(1, 40) as usize;
+                    for _ in 0..burst {
+                        if pos[b] < blocks[b].2.len() {
+                            ops.push(blocks[b].2[pos[b]].clone());
+                            pos[b] += 1;
+                        }
+                    }
+                }
+            }
+            let cap = rng.range(1, 2) as usize;
+            let start_lag = *rng.pick(&[0usize, 3, 50, 400]);
+            let lag = rng.below(4) as usize;
+            let desc = format!("{nb} blocks from slot {base} (malformed: {bad:?}, leader fast path: {own:?}), {} calls, channel capacity {cap}, consumer starts {start_lag} turns late and pauses {lag} turns per event", ops.len());
+            let reference = run_with_consumer(&w.rt, &ops, 100_000, 0, 0);
+            let lagging = run_with_consumer(&w.rt, &ops, cap, start_lag, lag);
+            w.rec.oracle(reference.is_ok() && lagging.is_ok(), "blockstore-add-shred-panics", || format!("backpressure: {desc}: panicked: {:?} / {:?}", reference.as_ref().err(), lagging.as_ref().err()));
+            if let (Ok((ref_evs, _)), Ok((evs, returned))) = (&reference, &lagging) {
+                let show = |v: &[Ev]| v.iter().map(|(k, s, h)| format!("{k} {s}{}", if h.is_some() { " #" } else { "" })).collect::<Vec<_>>().join(", ");
+                let mut lost: Vec<String> = vec![];
+                for (slot, h, _) in &blocks {
+                    let cnt = |k: &str| evs.iter().filter(|e| e.0 == k && e.1 == *slot).count();
+                    let right = evs.iter().filter(|e| e.0 == "block" && e.1 == *slot && e.2 == *h).count();
+                    let (nf, nbk, ninv) = (cnt("first"), cnt("block"), cnt("invalid"));
+                    let first_pos = evs.iter().position(|e| e.1 == *slot);
+                    let first_is_first = first_pos.is_some_and(|p| evs[p].0 == "first");
+                    let ok = if h.is_some() { nf == 1 && nbk == 1 && right == 1 && ninv == 0 && first_is_first } else { nf == 1 && nbk == 0 && ninv == 1 && first_is_first };
+                    if !ok {
+                        lost.push(format!("slot {slot} ({}): FirstShred x{nf}, Block x{nbk} ({right} with the leader's hash), InvalidBlock x{ninv}", if h.is_some() { "correct leader's block" } else { "malformed block" }));
+                    }
+                    w.rec.count(if h.is_some() { "backpressure:honest-block" } else { "backpressure:bad-block" });
+                }
+                let extra = evs.iter().filter(|e| !blocks.iter().any(|b| b.0 == e.1)).count();
+                w.rec.oracle(lost.is_empty() && extra == 0, "backpressure-event-lost", || format!("{desc}: not every event arrived exactly once: {}; received [{}]", lost.join("; "), show(evs)));
+                w.rec.oracle(evs == ref_evs, "backpressure-events-differ", || format!("{desc}: a lagging consumer received [{}], an unhindered one [{}]", show(evs), show(ref_evs)));
+                let mut want: Vec<&BlockHash> = blocks.iter().filter_map(|b| b.1.as_ref()).collect();
+                let mut got: Vec<&BlockHash> = returned.iter().collect();
+                want.sort();
+                got.sort();
+                w.rec.oracle(want == got, "backpressure-block-returned", || format!("{desc}: {} blocks returned to the caller, {} correct blocks delivered", got.len(), want.len()));
+                w.class = fnv(fnv(0, "backpressure"), &format!("{nb}{bad:?}{own:?}{cap}{}", evs.len()));
+            }
             let c = w.class;
             w.rec.end_case(c, true);
         }
